@@ -138,3 +138,23 @@ def generic(draw, k, lo=0.0, hi=1.0):
     u = draw(st.floats(min_value=0.0, max_value=1.0, allow_nan=False, width=64))
     k = k + _SEED_SHIFT
     return lo + (hi - lo) * ((u + PHI[k % len(PHI)] * (1 + (k // len(PHI)) * 0.137)) % 1.0)
+
+
+def attach_payload(atoms, seed):
+    """What real files and workflows leave on an Atoms object besides the geometry: a FixAtoms constraint on a subset of the atoms
+    (selective dynamics, frozen substrate), tags, initial magnetic moments and charges.  None of it is part of the structure; a
+    deterministic function of `seed`.  Returns the same object."""
+    from ase.constraints import FixAtoms
+    n = len(atoms)
+    if n == 0:
+        return atoms
+    r = np.random.RandomState(int(seed) % (2 ** 32))
+    frozen = np.where(r.uniform(size=n) < 0.5)[0]
+    if len(frozen) == n and n > 1:
+        frozen = frozen[:-1]
+    if len(frozen):
+        atoms.set_constraint(FixAtoms(indices=[int(i) for i in frozen]))
+    atoms.set_tags(r.randint(0, 3, size=n))
+    atoms.set_initial_magnetic_moments(r.uniform(-1.0, 1.0, size=n))
+    atoms.set_initial_charges(r.uniform(-0.5, 0.5, size=n))
+    return atoms
